@@ -227,7 +227,7 @@ def _truth(c):
     return bool(c)
 
 
-def check_clip(eng, name, finals, Vs, Ds, lr, kl, sqrt_calls, abs_calls, info=None):
+def check_clip(eng, name, finals, Vs, Ds, lr, kl, sqrt_calls, abs_calls, info=None, inner=None, zero_path=True):
     """Oblige finals == nu * Vs where nu is the scale the implementation derived,
     after checking that it was derived from kl / |sum <V, D> lr^2|.
 
@@ -237,16 +237,21 @@ def check_clip(eng, name, finals, Vs, Ds, lr, kl, sqrt_calls, abs_calls, info=No
     if kl is None:
         eng.oblige_all_eq(name, pairs_fv, info)
         return
-    s = 0
-    for V, D in zip(Vs, Ds):
-        s = s + O.frob(V, D)
-    s = s * lr * lr
+    if inner is not None:
+        s = inner * lr * lr     # inner product supplied by the caller (e.g. over the unsharded layers)
+    else:
+        s = 0
+        for V, D in zip(Vs, Ds):
+            s = s + O.frob(V, D)
+        s = s * lr * lr
     if eng.concrete is not None:
         import math
         nu = 1.0 if s == 0 else min(1.0, math.sqrt(kl / abs(s)))
         eng.oblige_all_eq(name, [(f, nu * v) for f, v in pairs_fv], info)
         return
     if not sqrt_calls:
+        if not zero_path:
+            return
         eng.oblige('clip-skipped-only-when-inner-product-is-zero', s == 0, info)
         nu = 1
     else:
